@@ -170,7 +170,7 @@ theorem covered_formats_round_trip (cf : CFormat) (hcf : cf ∈ coveredFormats) 
   exact format_parse_numeric cf.layout this i hi
 
 /-- non-vacuity: `YYYY-MM-DD HH:mm:ss` is covered; 2019-03-11 12:04:05 prints as expected and parses back -/
-example : let L := (compile gterms [89, 89, 89, 89, 45, 77, 77, 45, 68, 68, 32, 72, 72, 58, 109, 109, 58, 115, 115]).layout
+example : let L := (compile gterms C20.regexpLeftGuard [89, 89, 89, 89, 45, 77, 77, 45, 68, 68, 32, 72, 72, 58, 109, 109, 58, 115, 115]).layout
     NumericLayout L = true ∧ ValidInst ⟨2019, 3, 11, 12, 4, 5, 0, 1⟩ ∧
     formatLayout L ⟨2019, 3, 11, 12, 4, 5, 0, 1⟩ =
       some [50, 48, 49, 57, 45, 48, 51, 45, 49, 49, 32, 49, 50, 58, 48, 52, 58, 48, 53] := by
@@ -240,9 +240,12 @@ theorem relative_and_constants_case_insensitive :
     relHead (parseLql gcfg lqlFmts now0 [45, 57, 48, 77]) = some (109, [57, 48]) ∧
     parseLql gcfg lqlFmts now0 [87, 69, 69, 75] = .const 3 := by decide +kernel
 
-/-- `2019/01/01` handed to the collector: the earlier, unanchored `DD/MM/YY` (format 25) claims `19/01/01` — 2001-01-19. -/
-theorem cex_slash_date_shadowed :
-    parseFirst gadj colFmts now0 [50, 48, 49, 57, 47, 48, 49, 47, 48, 49] = .ok 25 ⟨2001, 1, 19, 0, 0, 0, 0, .dflt⟩ := by
+/-- `2019/01/01` handed to the collector. With the repair F19s (`regexpLeftGuard`): claimed by its own format `YYYY/MM/DD` (33),
+2019-01-01. Without it (the other branch of the fact): the earlier, unanchored `DD/MM/YY` (format 25) claims `19/01/01` out of
+the middle of the year — 2001-01-19. -/
+theorem slash_date_by_branch :
+    (if C20.regexpLeftGuard then decide (parseFirst gadj colFmts now0 [50, 48, 49, 57, 47, 48, 49, 47, 48, 49] = .ok 33 ⟨2019, 1, 1, 0, 0, 0, 0, .dflt⟩)
+     else decide (parseFirst gadj colFmts now0 [50, 48, 49, 57, 47, 48, 49, 47, 48, 49] = .ok 25 ⟨2001, 1, 19, 0, 0, 0, 0, .dflt⟩)) = true := by
   decide +kernel
 
 /-- **the UnixDate text `Mon Mar 11 13:14:15 UTC 2019` is claimed by format 2 and gives the year 2019**, in the collector
@@ -270,18 +273,24 @@ theorem wednesday_accepted :
     parseFirst gadj colFmts now0 [87, 101, 100, 110, 101, 115, 100, 97, 121, 44, 32, 49, 57, 45, 65, 112, 114, 45, 48, 51, 32, 49, 51, 58, 49, 52, 58, 49, 53, 32, 85, 84, 67] = .ok 4 ⟨2019, 4, 3, 13, 14, 15, 0, .utc⟩ ∧
     parseLql gcfg lqlFmts now0 [87, 101, 100, 110, 101, 115, 100, 97, 121, 44, 32, 49, 57, 45, 65, 112, 114, 45, 48, 51, 32, 49, 51, 58, 49, 52, 58, 49, 53, 32, 85, 84, 67] = .abs 4 ⟨2019, 4, 3, 13, 14, 15, 0, .utc⟩ := by decide +kernel
 
-/-- `12:05 AM` on `11/3/2019` handed to the collector: the 24-hour `D/M/YYYY HH:mm` (format 18) listed before
-`D/M/YYYY h:mm P` claims it — 12:05 (noon) instead of 00:05. -/
-theorem cex_am_claimed_by_24h :
-    parseFirst gadj colFmts now0 [49, 49, 47, 51, 47, 50, 48, 49, 57, 32, 49, 50, 58, 48, 53, 32, 65, 77]
-      = .ok 18 ⟨2019, 3, 11, 12, 5, 0, 0, .dflt⟩ := by decide +kernel
+/-- `11/3/2019 12:05 AM` handed to the collector. With the repair F19s the AM/PM format `D/M/YYYY hh:mm P` (now 17) comes before
+the 24-hour formats it extends and claims it: 00:05. Without it the 24-hour `D/M/YYYY HH:mm` (18) claims the prefix: 12:05. -/
+theorem am_text_by_branch :
+    (if C20.regexpLeftGuard then decide (parseFirst gadj colFmts now0 [49, 49, 47, 51, 47, 50, 48, 49, 57, 32, 49, 50, 58, 48, 53, 32, 65, 77]
+          = .ok 17 ⟨2019, 3, 11, 0, 5, 0, 0, .dflt⟩)
+     else decide (parseFirst gadj colFmts now0 [49, 49, 47, 51, 47, 50, 48, 49, 57, 32, 49, 50, 58, 48, 53, 32, 65, 77]
+          = .ok 18 ⟨2019, 3, 11, 12, 5, 0, 0, .dflt⟩)) = true := by decide +kernel
 
-/-- **the full statement fails** for the collector list (witness: format 33 `YYYY/MM/DD`, 2019-01-01) -/
-theorem not_C20_full_collector : ¬ C20_full colFmts (parseFirst gadj colFmts now0) := by
+/-- **without the repair the full statement fails** for the collector list (witness: format 33 `YYYY/MM/DD`, 2019-01-01);
+with it this obligation is void and `C20_collector` / `no_shadowing_heads` take its place -/
+theorem not_C20_full_collector (hg : C20.regexpLeftGuard = false) : ¬ C20_full colFmts (parseFirst gadj colFmts now0) := by
   intro h
-  have hcf : colFmts[33]? = some (compile gterms [89, 89, 89, 89, 47, 77, 77, 47, 68, 68]) := by decide +kernel
+  have hcf : colFmts[33]? = some (compile gterms C20.regexpLeftGuard [89, 89, 89, 89, 47, 77, 77, 47, 68, 68]) := by decide +kernel
   have := h 33 _ hcf ⟨2019, 1, 1, 0, 0, 0, 0, 2⟩ (by decide) [50, 48, 49, 57, 47, 48, 49, 47, 48, 49] (by decide +kernel)
-  rw [cex_slash_date_shadowed] at this
+  have hb := slash_date_by_branch
+  rw [hg] at hb
+  simp only [Bool.false_eq_true, if_false, decide_eq_true_eq] at hb
+  rw [hb] at this
   exact absurd this (by decide +kernel)
 
 end Logrange.Props.C20
